@@ -52,13 +52,33 @@ func assignMap(as []Assign, variant int) map[string]interface{} {
 // positions of a variable-free tree by variables v0, v1, ... and returns the
 // template with the bindings that restore the original tree.
 func templatize(tree *model.Node, mask uint64) (*model.Node, []Assign) {
+	return templatizeNamed(tree, mask, false)
+}
+
+// apiNames are legal variable names that mean something else as SML text or as a Go spelling of a value; they are used only
+// for templates that never pass through SML text (a variable called T in a BOOLEAN item cannot be written there).
+var apiNames = []string{"T", "F", "t", "f", "L", "A", "B", "u1", "I8", "F4", "BOOLEAN", "true", "false", "is_true", "falsey", "nil", "NaN", "Inf", "e5", "x", "X", "x[0]", "x[1]", "x[0][0]", "S1F1", "W"}
+
+// templatizeNamed: with apiOnly about one name in four is taken from apiNames (each at most once) instead of v0, v1, ...
+func templatizeNamed(tree *model.Node, mask uint64, apiOnly bool) (*model.Node, []Assign) {
 	var as []Assign
 	pos := uint64(0)
 	pick := func() bool {
 		pos++
 		return model.Mix64(mask+pos*0x9E37)%3 == 0
 	}
-	name := func() string { return fmt.Sprintf("v%d", len(as)) }
+	usedAPI := map[string]bool{}
+	name := func() string {
+		if apiOnly {
+			if h := model.Mix64(mask ^ uint64(len(as)+1)*0xA24BAED4963EE407); h%4 == 0 {
+				if nm := apiNames[(h>>8)%uint64(len(apiNames))]; !usedAPI[nm] {
+					usedAPI[nm] = true
+					return nm
+				}
+			}
+		}
+		return fmt.Sprintf("v%d", len(as))
+	}
 	var walk func(n *model.Node, root bool) *model.Node
 	walk = func(n *model.Node, root bool) *model.Node {
 		if n.Bulk != nil {
